@@ -113,6 +113,7 @@ func runC01(c *Ctx, r *Report) {
 	r.Rule("C01.R3", "short circuit: when the operator is && and the left operand is false (|| and true) the right operand is not evaluated: the true edge of those tests reaches only a return")
 	r.Rule("C01.R5", "validation precedes normalisation: an ordering test between two program integers that rejects the operation (returns an error) is not applied to values that were both already clamped by min() to the same bound (clamping maps distinct invalid pairs to equal, valid ones)")
 	r.Rule("C01.R6", "captured output is delivered: in a function that stores the address of a local buffer into State.Out, every path from that store to a return restores Out and then writes the buffer's bytes to the restored writer (or leaves through the buffer-is-empty edge)")
+	r.Rule("C01.R7", "control objects are not values: no result of evalInternal (the only producer of break/continue/return objects) reaches an array element, an argument list, a map pair or a binding unless a Type()==RETURN test excluded it on that path or it went through State.Eval, which unwraps `return` and rejects the others (its comma-ok assertion to ReturnValue is checked)")
 	r.Rule("C01.R4", "errors stop evaluation: no result of Eval/evalInternal is stored into an array element, a map pair or a binding unless a Type()==ERROR test has excluded the error on that path (interprocedural)")
 
 	tr := c.TokRel()
@@ -493,6 +494,9 @@ func runC01(c *Ctx, r *Report) {
 	// ---- R6 ----
 	c.checkCapturedOutput(r)
 
+	// ---- R7 ---- control objects never become data
+	c.checkControlObjects(r, "C01.R7")
+
 	// shared C12.R1/R2: <, <=, >, >= are thresholds on object.Cmp, which must be three-valued
 	r.Rule("C12.R1", "(shared) the comparison operators threshold object.Cmp by predicates with the expected truth sets on {-1,0,1}")
 	r.Rule("C12.R2", "(shared) object.Cmp returns only -1, 0 or 1 (the operators test == 1 / == -1)")
@@ -517,6 +521,28 @@ func runC01(c *Ctx, r *Report) {
 		}
 		if n < 20 {
 			r.Undecided("C01: only %d shared C12.R1/R2 obligations", n)
+		}
+	}
+	// shared C11.R5: m + n keeps n's value on equal keys
+	r.Rule("C11.R5", "(shared) map + map: the right operand's pairs are set over a copy of the left operand's")
+	{
+		sub := NewReport("C11", r.Tier, c)
+		sub.Sub = true
+		runC11(c, sub)
+		n := 0
+		for _, o := range sub.Obls {
+			if o.Rule != "C11.R5" {
+				continue
+			}
+			n++
+			if o.status == FAIL {
+				r.Fail(o.Rule, o.Func, o.Desc, o.Pos, o.Reason)
+			} else {
+				r.Ok(o.Rule, o.Func, o.Desc, o.Pos)
+			}
+		}
+		if n < 4 {
+			r.Undecided("C01: only %d shared C11.R5 obligations", n)
 		}
 	}
 }
@@ -770,4 +796,148 @@ func init() {
 		assume:  []string{"the 13 precedence classes embedded in the checker are the documented semantics", "MacroLiteral outside top level is outside the core language"},
 		run:     runC01,
 	})
+}
+
+// controlSpec: taint "object may be a control object (ReturnValue of break/continue/return) that nobody
+// looked at". Only evalInternal hands them out; State.Eval unwraps or rejects them.
+func (c *Ctx) controlSpec() TaintSpec {
+	base := c.registerSpec()
+	evalI := c.Fn("eval", "State.evalInternal")
+	evalE := c.Fn("eval", "State.Eval")
+	retTag := c.tagConst("RETURN")
+	objT := c.TypeNamed("object", "Object")
+	rvT := c.TypeNamed("object", "ReturnValue")
+	var clean func(v ssa.Value, at *ssa.BasicBlock, depth int) bool
+	clean = func(v ssa.Value, at *ssa.BasicBlock, depth int) bool {
+		if depth > 6 {
+			return false
+		}
+		if c.tagExcludedAt(v, retTag, at) {
+			return true
+		}
+		switch x := v.(type) {
+		case *ssa.Const:
+			return true
+		case *ssa.MakeInterface:
+			return !types.Identical(x.X.Type(), rvT) // a value of another concrete type
+		case *ssa.Phi:
+			// a variable assigned on some paths only: every incoming value was tested where it was assigned
+			for i, e := range x.Edges {
+				pred := x.Block().Preds[i]
+				if clean(e, pred, depth+1) {
+					continue
+				}
+				// the test may be the very branch that leads here: `if e.Type() == RETURN {..} else -> phi`
+				okEdge := false
+				if ifi, ok := pred.Instrs[len(pred.Instrs)-1].(*ssa.If); ok && pred.Succs[0] != pred.Succs[1] {
+					if bin, ok := ifi.Cond.(*ssa.BinOp); ok && (bin.Op == token.EQL || bin.Op == token.NEQ) {
+						if k, isK := constInt(bin.Y); isK && k == retTag {
+							if tc, ok := bin.X.(*ssa.Call); ok && tc.Common().IsInvoke() && tc.Common().Method.Name() == "Type" && tc.Common().Value == e {
+								edge := 1
+								if bin.Op == token.NEQ {
+									edge = 0
+								}
+								if pred.Succs[edge] == x.Block() {
+									okEdge = true
+								}
+							}
+						}
+					}
+				}
+				if !okEdge {
+					return false
+				}
+			}
+			return true
+		case *ssa.Call:
+			// object.Value(x) / CopyRegister(x) keep the tag of x unless x is a register/reference
+			if obj := calleeObj(x); obj != nil && len(x.Common().Args) == 1 && (obj.Name() == "Value" || obj.Name() == "CopyRegister") {
+				return clean(x.Common().Args[0], at, depth+1)
+			}
+		}
+		return false
+	}
+	return TaintSpec{
+		Name: "unexamined control object",
+		Source: func(v ssa.Value) bool {
+			call, ok := v.(*ssa.Call)
+			return ok && isCallTo(call, evalI)
+		},
+		// State.Eval unwraps `return` and rejects break/continue (its comma-ok assertion to ReturnValue is
+		// checked by rule C01.R7 itself)
+		Sanitizer:     func(f *types.Func) bool { return f == evalE },
+		StorageStruct: base.StorageStruct,
+		Carrier:       func(t types.Type) bool { return types.Identical(t, objT) },
+		RawSink:       base.RawSink,
+		CleanAt:       func(v ssa.Value, use ssa.Instruction) bool { return clean(v, use.Block(), 0) },
+	}
+}
+
+func init() {
+	dumpers["controltaint"] = func(c *Ctx) {
+		t := NewTaint(c, c.controlSpec())
+		finds, checked := t.Findings()
+		fmt.Println("checked", checked)
+		for _, f := range finds {
+			fmt.Printf("%s | %s | %s | sinks: %s\n", ssaFuncName(f.Fn), f.Desc, c.Pos(instrPos(f.At)), strings.Join(f.Sinks, "; "))
+		}
+	}
+}
+
+// checkControlObjects: rule C01.R7 (also shared into C07 and C12: a control object inside a container makes
+// Cmp panic on tag RETURN).
+func (c *Ctx) checkControlObjects(r *Report, rule string) {
+	t := NewTaint(c, c.controlSpec())
+	finds, checked := t.Findings()
+	for _, f := range finds {
+		r.Fail(rule, ssaFuncName(f.Fn), f.Desc, c.Pos(instrPos(f.At)),
+			"a result of evalInternal that may be a control object (break/continue/return) is stored as a value without a Type()==RETURN test: [break] builds an array holding the control object; comparing it panics in Cmp (tag RETURN), and reading it back inside a loop silently breaks the loop; reached: "+strings.Join(f.Sinks, "; "))
+	}
+	if len(finds) == 0 {
+		r.Ok(rule, "eval", fmt.Sprintf("no unexamined evalInternal result reaches storage (%d sinks and storing call sites examined)", checked), "-")
+	}
+	if checked < 100 {
+		r.Undecided("%s: only %d sinks examined", rule, checked)
+	}
+	// the sanitiser: State.Eval asserts its result to ReturnValue and never returns the asserted value itself
+	ev := c.SSAFn(c.Fn("eval", "State.Eval"))
+	rvT := c.TypeNamed("object", "ReturnValue")
+	var ta *ssa.TypeAssert
+	eachInstr(ev, func(in ssa.Instruction) {
+		if x, ok := in.(*ssa.TypeAssert); ok && x.CommaOk && types.Identical(x.AssertedType, rvT) {
+			if call, ok := x.X.(*ssa.Call); ok && isCallTo(call, c.Fn("eval", "State.evalInternal")) {
+				ta = x
+			}
+		}
+	})
+	okEval := ta != nil
+	why := "State.Eval no longer asserts the result of evalInternal to ReturnValue"
+	if ta != nil {
+		// every return after the assertion is in a block the assertion dominates
+		eachInstr(ev, func(in ssa.Instruction) {
+			if ret, ok := in.(*ssa.Return); ok && reachesInstr(ta, ret) && !ta.Block().Dominates(ret.Block()) {
+				okEval, why = false, "a return of State.Eval is reachable without the ReturnValue assertion"
+			}
+		})
+		// on the ok edge, a control type other than RETURN is an error: an If on ControlType exists under the ok edge
+		hasCtl := false
+		ctlIdx := fieldIndex(rvT, "ControlType")
+		eachInstr(ev, func(in ssa.Instruction) {
+			switch f := in.(type) {
+			case *ssa.Field:
+				if n, ok := f.X.Type().(*types.Named); ok && n.Obj() == rvT.Obj() && f.Field == ctlIdx {
+					hasCtl = true
+				}
+			case *ssa.FieldAddr:
+				if n := namedStruct(f.X.Type()); n != nil && n.Obj() == rvT.Obj() && f.Field == ctlIdx {
+					hasCtl = true
+				}
+			}
+		})
+		if !hasCtl {
+			okEval, why = false, "State.Eval does not look at the ControlType of the asserted ReturnValue"
+		}
+	}
+	r.Check(okEval, rule, ssaFuncName(ev), "State.Eval unwraps or rejects control objects", c.Pos(ev.Pos()), why)
+	r.Floor(rule, 2)
 }
